@@ -385,9 +385,9 @@ PROPS = {
     },
     "C07": {
         # (generator, quick n, thorough n); the exact O(n*m) oracle costs about 0.3 s per line on average
-        "generators": [("c07", 1600, 24000)],
+        "generators": [("c07", 1600, 24000), ("c07walk", 320, 8000)],
         "translators": ["translator_c09"],
-        "modules": ["S2.Relate", "S2.Nesting", "S2.Pred", "S2.Exact"],
+        "modules": ["S2.Relate", "S2.RelateWalk", "S2.Nesting", "S2.Pred", "S2.Exact"],
         "rule": "rel: pairs of valid loops — concentric regular polygons (the D1 shape: both sides with multi-cell indexes and edge-free "
                 "interior cells), nearly equal radii, star-shaped random loops at every distance (disjoint / crossing / nested), "
                 "one or both larger than a hemisphere, B = every s-th vertex of A (1..n shared vertices), B = a chain of A closed by a chord "
@@ -409,7 +409,7 @@ PROPS = {
                 "shared): each (levels 4 and 6) x ring x placement once per run plus random ones, both argument orders, all four complement "
                 "combinations; every Invert() result is checked (depths = exact containment counts, pre-order). non-trivial = rel line whose two loops both have >= 3 vertices, nest / prel lines; "
                 "distinct = distinct (op, arguments)",
-        "nontrivial": lambda l: (l.startswith("rel ") and l.split(" ")[1].count(";") >= 2 and l.split(" ")[2].count(";") >= 2)
+        "nontrivial": lambda l: ((l.startswith("rel ") or l.startswith("c07walk ")) and l.split(" ")[1].count(";") >= 2 and l.split(" ")[2].count(";") >= 2)
                                 or l.startswith("nest ") or l.startswith("prel "),
         "trusted_base": [
             "exact orientation predicate of the oracle = sign of the integer determinant, Pred.exactDecisionI (symbolic perturbation) when it is 0; "
